@@ -439,6 +439,8 @@ impl SessionManager {
     where
         F: FnOnce(&Session) -> R,
     {
+        #[cfg(feature = "verif-hooks")]
+        crate::verif_hooks::before_lock("session.with_session.read", &|| self.sessions.try_read().is_some());
         let sessions = self.sessions.read();
         let session = sessions
             .get(id)
@@ -451,6 +453,8 @@ impl SessionManager {
     where
         F: FnOnce(&mut Session) -> R,
     {
+        #[cfg(feature = "verif-hooks")]
+        crate::verif_hooks::before_lock("session.with_session_mut.write", &|| self.sessions.try_write().is_some());
         let mut sessions = self.sessions.write();
         let session = sessions
             .get_mut(id)
